@@ -722,7 +722,7 @@ def r7_incomplete_before_malformed(ctx):
 CONSUME = {"next_char", "advance"}
 READS = {"next_char", "advance", "peek"}
 TABLE_NAMES = ("_read_dispatch", "_read_macro_dispatch")
-TOP, EMPTY, SENT = "TOP", "E", "S"
+TOP, EMPTY, SENT, NONEMPTY = "TOP", "E", "S", "NE"
 
 R5_REVIEWED = {
     "_read_num": "entered only where begin_num_chars matched the peeked character (checked at every call site); '-' is consumed by "
@@ -959,6 +959,28 @@ class _EofMode:
         self.fns, self.cfgs, self.regexes, self.tables = pr.fns, pr.cfgs, pr.regexes, pr.tables
         self.memo = {}
         self.active = set()
+        # 'a few characters, then the end' mode (see r9): env['__n__'] = characters left (None = unknown);
+        # env['__e__'] = the last decided branch was decided by the end-of-input value
+        self._empty_seen = False
+        self.eof_decided_raises = []
+
+    def _read(self, op, env):
+        if "__n__" not in env:
+            self._empty_seen = True
+            return EMPTY
+        n = env["__n__"]
+        if n is None:
+            return TOP
+        if op == "peek":
+            left = n
+        elif op == "advance":
+            left, env["__n__"] = n, max(n - 1, 0)
+        else:  # next_char moves first
+            env["__n__"] = left = max(n - 1, 0)
+        if left > 0:
+            return NONEMPTY
+        self._empty_seen = True
+        return EMPTY
 
     def ev(self, e, env, name):
         if isinstance(e, ast.NamedExpr):
@@ -966,7 +988,10 @@ class _EofMode:
             env[e.target.id] = v
             return v
         if isinstance(e, ast.Name):
-            return env.get(e.id, TOP)
+            v = env.get(e.id, TOP)
+            if v == EMPTY:
+                self._empty_seen = True
+            return v
         if isinstance(e, ast.Constant):
             return ("c", e.value)
         if isinstance(e, ast.Attribute) and P.un(e) == "ctx.eof":
@@ -976,12 +1001,13 @@ class _EofMode:
                 if isinstance(a, ast.NamedExpr):
                     self.ev(a, env, name)
             if _reader_op(e, self.pr.aliases[name]) in READS:
-                return EMPTY
+                return self._read(_reader_op(e, self.pr.aliases[name]), env)
             f = e.func
             if P.un(f) in ("cast", "typing.cast") and len(e.args) == 2:
                 return self.ev(e.args[1], env, name)
             if isinstance(f, ast.Attribute) and f.attr == "get" and P.un(f.value) in self.tables and e.args:
                 if self.ev(e.args[0], env, name) == EMPTY:
+                    self._empty_seen = True
                     t = self.tables[P.un(f.value)]
                     return ("tv", t[""]) if "" in t else ("c", None)
                 return TOP
@@ -995,6 +1021,10 @@ class _EofMode:
                         return self.ret_value(node.id)
                     return TOP
                 if f.id in self.fns:
+                    if env.get("__n__", 0) != 0:
+                        # characters are left (or unknown): what the callee reads is not modelled
+                        env["__n__"] = None
+                        return TOP
                     return self.ret_value(f.id)
         return TOP
 
@@ -1029,6 +1059,8 @@ class _EofMode:
                 if isinstance(v, tuple) and v[0] == "c":
                     return True, v[1]
                 return False, None
+            if isinstance(op, (ast.Eq, ast.NotEq)) and {left, right} & {NONEMPTY} and ("c", "") in (left, right):
+                return isinstance(op, ast.NotEq)
             if isinstance(op, (ast.Eq, ast.NotEq)):
                 (kl, vl), (kr, vr) = conc(left), conc(right)
                 if kl and kr:
@@ -1060,7 +1092,10 @@ class _EofMode:
                 return False if self.ev(recv, env, name) == EMPTY else None
         v = self.ev(e, env, name)
         if v == EMPTY:
+            self._empty_seen = True
             return False
+        if v == NONEMPTY:
+            return True
         if isinstance(v, tuple) and v[0] == "c":
             return bool(v[1])
         if isinstance(v, tuple) and v[0] == "tv":
@@ -1072,10 +1107,13 @@ class _EofMode:
         a = nd.ast
         labels = None
         normal_ok = True
+        self._empty_seen = False
         if nd.kind == "test":
             t = self.truth(a, env, name)
             if t is not None:
                 labels = {t}
+            if "__n__" in env:
+                env["__e__"] = bool(t is not None and self._empty_seen)
         elif nd.kind == "stmt" and a is not None and not isinstance(a, (ast.FunctionDef, ast.AsyncFunctionDef, ast.ClassDef)):
             if isinstance(a, ast.Assign) and len(a.targets) == 1 and isinstance(a.targets[0], ast.Name):
                 env[a.targets[0].id] = self.ev(a.value, env, name)
@@ -1091,7 +1129,7 @@ class _EofMode:
                     if isinstance(n, ast.NamedExpr):
                         self.ev(n, env, name)
             for c in P.walk_local(a, include_self=True):
-                if isinstance(c, ast.Call) and isinstance(c.func, ast.Name) and c.func.id in self.fns:
+                if isinstance(c, ast.Call) and isinstance(c.func, ast.Name) and c.func.id in self.fns and env.get("__n__", 0) == 0:
                     if not self.summary(c.func.id)[0]:
                         normal_ok = False  # the callee cannot return normally at end of input
         elif nd.kind == "iter" and a is not None:
@@ -1104,8 +1142,11 @@ class _EofMode:
                     for n in ast.walk(it.optional_vars):
                         if isinstance(n, ast.Name):
                             env[n.id] = TOP
-        elif nd.kind == "handler" and a is not None and a.name:
-            env[a.name] = TOP
+        elif nd.kind == "handler" and a is not None:
+            if a.name:
+                env[a.name] = TOP
+            if "__n__" in env:
+                env["__e__"] = False  # what is raised in a handler is decided by the exception
         succ = []
         for m, lab in nd.succ:
             if lab == "exc":
@@ -1131,6 +1172,8 @@ class _EofMode:
             env = dict(k[1])
             if nd.kind == "stmt" and isinstance(nd.ast, ast.Return):
                 rets.add(self.ev(nd.ast.value, dict(env), name) if nd.ast.value is not None else ("c", None))
+            if nd.kind == "stmt" and isinstance(nd.ast, ast.Raise) and nd.ast.exc is not None and env.get("__e__") and "syntax_error" in P.un(nd.ast.exc):
+                self.eof_decided_raises.append((name, nd.ast))
             env2, ss = self.step(nd, env, name)
             return [key(m, env2) for m in ss]
         root = key(start, env0)
@@ -1492,7 +1535,89 @@ def r8_input_is_validated_with_syntax_errors(ctx):
     ctx.note(f"C16.R8: {n_a} asserts on read values, {n_c} constant subscripts of forms, {n_d} raw _read_next results")
 
 
+def _eof_test(t) -> bool:
+    """An end-of-input test: <x> == '' / <x> is ctx.eof, or a disjunction of such."""
+    if isinstance(t, ast.BoolOp) and isinstance(t.op, ast.Or):
+        return all(_eof_test(v) for v in t.values)
+    if isinstance(t, ast.Compare) and len(t.ops) == 1:
+        r = t.comparators[0]
+        if isinstance(t.ops[0], ast.Eq) and isinstance(r, ast.Constant) and r.value == "":
+            return True
+        if isinstance(t.ops[0], ast.Is) and P.un(r) == "ctx.eof":
+            return True
+    return False
+
+
+@rule("C16.R9", floor=30)
+def r9_end_of_input_is_classified_as_such(ctx):
+    """Incomplete versus malformed, both directions.  (a) Each reader function is executed abstractly
+    with 0, 1 and 2 characters left in the stream and nothing after them: a plain syntax error
+    whose deciding branch was decided by the end-of-input value (the '' every read returns from
+    then on, or a table lookup / regex match on it) reports text that merely stops as malformed
+    -- the REPL then rejects what it should keep reading.  (b) Conversely every raise of eof_error
+    sits directly under an end-of-input test: raised under any other test it reports complete but
+    malformed text as incomplete, and the REPL waits for more input for ever."""
+    fns = _reader_functions(ctx)
+    pr = _Progress(ctx, fns)
+    seen = {}
+    n_runs = 0
+    for name in sorted(fns):
+        fn = fns[name]
+        if any(isinstance(x, (ast.Yield, ast.YieldFrom)) for x in P.walk_local(fn)) or name not in pr.cfgs:
+            continue
+        for k in (0, 1, 2):
+            em = _EofMode(pr)
+            try:
+                em.explore(name, pr.cfgs[name].entry, {"__n__": k, "__e__": False})
+            except RecursionError:
+                raise AnalysisError(f"abstract execution of {name} does not converge")
+            n_runs += 1
+            for fname, r in em.eof_decided_raises:
+                seen.setdefault((fname, r.lineno), (r, k))
+    for fname in sorted(fns):
+        bad = sorted((ln, rk) for (f, ln), rk in seen.items() if f == fname)
+        if fname not in pr.cfgs:
+            continue
+        if not any(isinstance(r, ast.Raise) and r.exc is not None and "syntax_error" in P.un(r.exc) for r in ast.walk(fns[fname])):
+            continue
+        if not bad:
+            ctx.ob("C16.R9", f"{RD}::{fname}::no plain syntax error is decided by the end of the input", RD, fns[fname].lineno, True)
+        for ln, (r, k) in bad:
+            guard = next((P.un(a.test) for a in P.ancestors(r) if isinstance(a, ast.If)), "")
+            ctx.ob("C16.R9", f"{RD}::{fname}::`{P.un(r.exc)[:60]}` is not decided by the end of the input", RD, ln, False,
+                   f"with {k} character(s) left and then the end of the input, this plain syntax error is raised because a read returned '' (nearest test `{guard[:60]}`): text that merely stops here is reported as malformed instead of incomplete",
+                   witness="(read-string \"[1 #?\") / \"#\" / \"#b\" / \"\\\"abc\\\\\" => SyntaxError instead of UnexpectedEOFError")
+    # (b)
+    for fname, fn in sorted(fns.items()):
+        for r in ast.walk(fn):
+            if not (isinstance(r, ast.Raise) and r.exc is not None and "eof_error" in P.un(r.exc)):
+                continue
+            test = None
+            cur = r
+            for a in P.ancestors(r):
+                if isinstance(a, ast.If) and P.contains(fn, a):
+                    in_body = any(x is cur or P.contains(x, cur) for x in a.body)
+                    test = a.test if in_body else None
+                    break
+                cur = a
+            ok = test is not None and _eof_test(test)
+            ctx.ob("C16.R9", f"{RD}::{fname}::eof_error under `{P.un(test)[:50] if test is not None else 'no test'}`", RD, r.lineno, ok,
+                   "" if ok else "an unexpected-end-of-input error is raised under a test that is not an end-of-input test: complete but malformed text is reported as incomplete, and the REPL keeps waiting for more",
+                   witness="#b \"é\" at the REPL: the prompt inserts a newline for ever")
+    ctx.note(f"C16.R9: {n_runs} abstract runs (function x characters left)")
+
+
 SELFTEST = [
+    {"name": "reader macro prefix at the end of the input is a plain syntax error (the repaired defect)", "file": RD, "expect": "C16.R9",
+     "old": "    if char == \"\":\n        raise ctx.eof_error(\"Unexpected EOF in reader macro\")\n", "new": ""},
+    {"name": "#? at the end of the input is a plain syntax error (the repaired defect)", "file": RD, "expect": "C16.R9",
+     "old": "    elif char == \"\":\n        raise ctx.eof_error(\"Unexpected EOF in reader conditional\")\n", "new": ""},
+    {"name": "string ending in a backslash is a plain syntax error (the repaired defect)", "file": RD, "expect": "C16.R9", "nth": 0,
+     "old": "            char = reader.next_char()\n            if char == \"\":\n                raise ctx.eof_error(\"Unexpected EOF in string\")\n            if raw_string:", "new": "            char = reader.next_char()\n            if raw_string:"},
+    {"name": "#b at the end of the input is a plain syntax error (the repaired defect)", "file": RD, "expect": "C16.R9",
+     "old": "    if char == \"\":\n        raise ctx.eof_error(\"Unexpected EOF in byte string\")\n    if char != '\"':", "new": "    if char != '\"':"},
+    {"name": "non-ASCII byte string reported as incomplete (the repaired defect)", "file": RD, "expect": "C16.R9",
+     "old": "            raise ctx.syntax_error(\"Byte strings must contain only ASCII characters\")", "new": "            raise ctx.eof_error(\"Byte strings must contain only ASCII characters\")"},
     {"name": "reader tag checked with an assert (the repaired defect)", "file": RD, "expect": "C16.R8",
      "old": "        if not isinstance(s, sym.Symbol):\n            raise ctx.syntax_error(f\"Expected a symbol as a reader tag, got '{s}'\")\n", "new": "        assert isinstance(s, sym.Symbol)\n"},
     {"name": "data reader TypeError escapes (the repaired defect)", "file": RD, "expect": "C16.R8",
